@@ -38,7 +38,7 @@ CONFIG["C15"] = dict(
     level_text="Theorems for every n, (n,m) and generator state: UintN in range, Permutation is a permutation (count invariant), SubPermutation a prefix of one, "
                "Samples applies swaps (i,i+j) with i+j<n, error guards. Exact uniformity of UintN: the candidate is the fresh bytes' number mod 2^k (stale scratch bytes never matter), every value < 2^k is hit by exactly 2^(8*size-k) of the 256^size byte strings, the loop returns the first accepted candidate. "
                "Equal likelihood of the shuffles: Permutation is the pure inside-out Fisher-Yates on the vector of its draws (permutation_run) and that map is injective on the n! valid choice vectors "
-               "(permutation_choices_injective); Samples/Shuffle report the swaps of a valid choice vector (samplesLoop_choices) and distinct vectors give distinct ordered samples on any array of distinct elements (samples_choices_injective).",
+               "(permutation_choices_injective) and onto the arrangements of 0..n-1 (permutation_every_outcome_once: every permutation is the outcome of exactly one draw vector - the last step of the loop can be undone, Proofs/FisherYatesSurj); Samples/Shuffle report the swaps of a valid choice vector (samplesLoop_choices) and distinct vectors give distinct ordered samples on any array of distinct elements (samples_choices_injective).",
     level_note="Lean kernel; rejection loop modelled with fuel (the model does not return when fuel is exhausted; the harness never hit that); "
                "the product-counting steps (per-attempt uniformity -> distribution of the rejection loop; uniform independent choices + injectivity -> uniform outcomes) are the classical arguments, not formalised as probability statements",
     assumptions=["PRG bytes are as in C14"],
@@ -210,14 +210,17 @@ CONFIG["C07"] = dict(
 )
 CONFIG["C08"] = dict(
     lean_modules=["Props.C08"], generators=["C08"], level="proof", rule=_DKG_RULE, trusted_base=BLS_TB,
-    technique="Lean 4 proof (blame targets, monotone disqualification, fault => disqualification lemmas, plain Feldman VSS invariant) + differential run + fairness predicates on real executions",
+    technique="Lean 4 proof (blame targets, honest participants never blame each other over whole executions, monotone disqualification, fault => disqualification lemmas, honest dealer never disqualified, plain Feldman VSS invariant) + differential run + fairness predicates on real executions",
     level_text="Theorems for every state and message: an instance only ever blames the sender of the handled message or its dealer; timeouts/End only blame the dealer; disqualification is monotone and makes End fail; "
                "unanswered complaint, > t complaints, missing / late / malformed vector each disqualify; plain Feldman VSS returns keys only with a valid stored vector and a share passing the check against it (invariant over all call sequences of a non-dealer). "
                "own_complaint_at_most_once: over every sequence of deliveries and timeouts an honest participant broadcasts its complaint at most once (so it is never flagged for a duplicate: defect class F9); share_vector_any_order and "
                "complaint_answer_any_order: the two historically defective orders (F9, F10) give the same state in either order. "
                "honest_dealer_never_disqualified: whatever the other participants broadcast or send and in whatever order, if the dealer sends nothing but its vector, the receiver's share and valid answers, the vector and the share arrive in the first round, "
                "at most t participants ever complain and each is answered before End, then End returns the receiver's share and the dealer's keys (invariant over all delivery sequences; a concrete run meeting every hypothesis is checked as an example). "
-               "That an honest *complainer* is never flagged by the others follows from own_complaint_at_most_once; the remaining network-level statement (who delivers what to whom) is exercised by the runs (partial).",
+               "honest_never_blamed_by_honest (Proofs/DkgBlame, network level, Feldman-VSS-Qual): no Disqualify / FlagMisbehavior callback of an honest participant during the three rounds, the two timeouts and End targets another honest participant, "
+               "for every behaviour of the dealer and the others, every private message and every delivery order at both, assuming only that what one receives from the other by broadcast in a round is what the other's state machine broadcast in that round; "
+               "rests on honest_broadcasts_one_complaint (an honest participant broadcasts at most one message in a whole execution, its complaint, never after the first timeout has passed) and blame_targets; non-vacuity example with a complaint at the first timeout. "
+               "Partial: the lifting of the network-level theorem to the n parallel instances of Joint-Feldman is exercised by the runs.",
     level_note="Lean kernel + correspondence",
     assumptions=["reliable broadcast, round-synchronous delivery, at most t Byzantine participants"],
 )
@@ -310,13 +313,13 @@ def _c20_hook(ctx):
 
 
 CONFIG["C20"] = dict(
-    lean_modules=[], generators=["C20"], level="translation_validation", hooks=[_c20_hook],
+    lean_modules=["Props.C20"], generators=["C20"], level="translation_validation", hooks=[_c20_hook],
     rule="one deterministic transcript program (hashing/KMAC all-splits, PRG, ECDSA key generation/decoding/verification of model-made signatures; with cgo: BLS decoding, key generation, sign/verify catalogue, aggregation, "
          "many-message verification, SPoCK, threshold key generation/reconstruction, full DKG executions) built in the four configurations of the property; every transcript is compared byte for byte with the default build's and the default build's with the Lean model; "
          "the no_cgo build is compared on the non-BLS part",
     trusted_base=COMMON_TB + ["the assembly / portable C / pure Go code paths themselves are third-party or machine code that no model in this project represents: agreement is observed on the transcript, not proved"],
-    technique="translation validation: the same transcript program in four build configurations against one Lean model",
-    level_text="Decided on every run for the transcript: all configurations agree with each other and with the configuration-free Lean model. Nothing beyond the transcript is proved (honest ceiling for machine code paths).",
+    technique="translation validation: the same transcript program (with a concurrent section) in four build configurations against one Lean model; Lean 4 proofs of the Go-level helper equivalences (xorIn / copyOut generic vs unaligned)",
+    level_text="Decided on every run for the transcript: all configurations agree with each other and with the configuration-free Lean model. Proved in Lean (Props/C20): the two configuration-specific pairs of Go helpers of hash/ agree - xorIn generic = xorIn unaligned on every block of the two rates the package uses (104, 136, from the regenerated constants; they differ for any other rate, witness 168), copyOut generic = copyOut unaligned for output lengths that are multiples of 8 (32, 48), and both equal the model's xorBlock / extract the C13 sponge theorems are about. Nothing is proved about the assembly permutation, BLST's ADX/portable paths or cgo (honest ceiling for machine code paths).",
     level_note="translation validation, not proof: -D__BLST_NO_ASM__ is not part of the claim (does not compile at the pinned commit)",
     assumptions=["the transcript is representative of the deterministic operations of the module"],
 )
